@@ -162,7 +162,10 @@ def run(p, led, tier):
 
     def run_method(o, m, start, overrides=None):
         it, obj = make(o, start, overrides)
-        before = freeze(obj)
+        # the lifecycle's state: every field, append-only logs compared by their old length (an event recorded about a
+        # refusal is not a change of the lifecycle; rewriting or truncating the log is)
+        before_lists = {k: len(v) for k, v in obj.fields.items() if isinstance(v, list)}
+        before = freeze({k: (v[:] if isinstance(v, list) else v) for k, v in obj.fields.items()})
         params = [a for a in m.params() if a != "self"]
         try:
             r = it.call_fi(m, [obj] + [Unknown(a) for a in params], {})
@@ -172,7 +175,7 @@ def run(p, led, tier):
         writes = [ev for ev in it.events if ev[0] == "write"]
         reason = obj.fields.get(REASON)
         return dict(reason_none=reason is None, ret=r, raised=raised, writes=writes, final=obj.fields[PH].name if hasattr(obj.fields[PH], "name") else repr(obj.fields[PH]),
-                    changed=freeze(obj) != before, decisions=list(it.decisions))
+                    changed=freeze({k: (v[:before_lists.get(k, len(v))] if isinstance(v, list) else v) for k, v in obj.fields.items()}) != before, decisions=list(it.decisions))
 
     table = {}
     for m in sorted(public, key=lambda x: x.name):
